@@ -397,6 +397,8 @@ class Ctx:
                 return self.alloc_list(val.f['items'])
             if val.kind == 'regex':
                 return VRegex(z3.IntVal(val.f.get('rid', 0)))
+            if val.kind == 'nonfinite':
+                return VOther(z3.IntVal(-98))      # inf / nan: a float outside the logic
         raise OutOfReach(f'cannot store {val!r} in the heap')
 
     def wrap(self, py):
